@@ -5,6 +5,7 @@ import (
 	"flag"
 	"fmt"
 	"os"
+	"path/filepath"
 	"sort"
 	"strings"
 	"time"
@@ -26,6 +27,7 @@ func main() {
 	list := flag.Bool("list", false, "list function keys matching -dump substring")
 	flag.StringVar(&sinkFilter, "sink", "", "debug: with -dump, only show instructions containing this substring")
 	grepCalls := flag.String("grepcalls", "", "debug: list call sites whose callee key contains the substring")
+	seedsDir := flag.String("seeds", "", "directory of kept seeded changes for the thorough tier's self-test (default: ../seeded next to the binary)")
 	flag.Parse()
 	if os.Getenv("VERIF_TIER") != "" && *tier == "" {
 		*tier = os.Getenv("VERIF_TIER")
@@ -72,6 +74,17 @@ func main() {
 	}
 	code := 0
 	for _, id := range ids {
+		if *tier == "thorough" {
+			exe, err := os.Executable()
+			if err != nil {
+				exe = os.Args[0]
+			}
+			seeds := *seedsDir
+			if seeds == "" {
+				seeds = filepath.Join(filepath.Dir(filepath.Dir(exe)), "seeded")
+			}
+			rules.RunSelfTests(id, *repo, seeds, exe, *kf)
+		}
 		c := rules.Run(p, id, *tier, *out, *kf, t0)
 		if c > code {
 			code = c
